@@ -29,7 +29,10 @@ def run(ctx):
             want = basicprog.render(lines, tbl, listo)
             meta = {'dialect': name, 'listo': listo, 'want': want, 'nitems': sum(len(l.items) for l in lines), 'stdin': via_stdin}
             if via_stdin:
-                cases.append(vlib.Case(name, {}, ['--dialect', name, '--listo=%d' % listo, '-'], tool='basic', stdin=data, meta=meta))
+                cs_ = vlib.Case(name, {}, ['--dialect', name, '--listo=%d' % listo, '-'], tool='basic', stdin=data, meta=meta)
+                cs_.stdin_seekable = (k % 2 == 0)      # `tool - < file` and `prog | tool -` alternate
+                ctx.count('stdin.%s' % ('file' if cs_.stdin_seekable else 'pipe'))
+                cases.append(cs_)
             else:
                 cases.append(vlib.Case(name, {'p.bbc': data}, ['--dialect=' + name, '-l', str(listo), '@p.bbc'], tool='basic', meta=meta))
     if ctx.tier == 'thorough':
